@@ -11,7 +11,11 @@ use serde_json::json;
 use std::collections::BTreeSet;
 
 const TARGET_KINDS: [&str; 6] = ["struct", "generic-struct", "unit-enum", "tagged-enum", "newtype", "alias"];
-const POSITIONS: [&str; 13] = ["field", "vec", "option", "map-value", "generic-arg", "variant-payload", "variant-field", "alias-target", "self-box", "param-field", "param-payload", "param-variant-field", "param-alias"];
+const POSITIONS: [&str; 19] = [
+    "field", "vec", "option", "map-value", "generic-arg", "variant-payload", "variant-field", "alias-target", "self-box", "param-field", "param-payload", "param-variant-field", "param-alias",
+    // two (or three) separately renamed types inside one type expression
+    "pair-both-renamed", "map-key-and-value-renamed", "renamed-holder-of-target", "nested-pair-deep", "payload-pair-both-renamed", "alias-pair-both-renamed",
+];
 
 #[derive(Clone, Debug)]
 pub struct Case {
@@ -68,7 +72,52 @@ pub fn program(c: &Case) -> File {
         g.generics = vec!["H".into()];
         g
     };
+    // a second and a third type that are always serde-renamed
+    let snd = {
+        // (a struct: a renamed unit enum would run into the Go finding KF-C09-go-unit-enum-original-name at every position)
+        let mut i = Item::strukt("Snd", vec![Field::new("k", Ty::Prim("u32"))]);
+        i.rename = Some("SndRenamed".into());
+        i
+    };
+    let pair = |renamed: bool| {
+        let mut i = Item::strukt("Pair", vec![Field::new("l", Ty::Param("L".into())), Field::new("r", Ty::Param("R".into()))]);
+        i.generics = vec!["L".into(), "R".into()];
+        if renamed {
+            i.rename = Some("PairRenamed".into());
+        }
+        i
+    };
+    let pair_of = |a: Ty, b: Ty| Ty::Generic("Pair".into(), vec![a, b]);
     let mut referrer = match c.position {
+        "pair-both-renamed" => {
+            items.push(snd);
+            items.push(pair(false));
+            Item::strukt("Referrer", vec![Field::new("r", pair_of(t, Ty::user("Snd")))])
+        }
+        "map-key-and-value-renamed" => {
+            items.push(snd);
+            Item::strukt("Referrer", vec![Field::new("r", Ty::Map(Box::new(Ty::user("Snd")), Box::new(t)))])
+        }
+        "renamed-holder-of-target" => {
+            items.push(snd);
+            items.push(pair(true));
+            Item::strukt("Referrer", vec![Field::new("r", pair_of(Ty::user("Snd"), t))])
+        }
+        "nested-pair-deep" => {
+            items.push(snd);
+            items.push(pair(true));
+            Item::strukt("Referrer", vec![Field::new("r", Ty::Vec(Box::new(pair_of(Ty::Option(Box::new(t.clone())), Ty::Vec(Box::new(pair_of(Ty::user("Snd"), t)))))))])
+        }
+        "payload-pair-both-renamed" => {
+            items.push(snd);
+            items.push(pair(false));
+            Item::enumm("Referrer", vec![Variant::new("P", VKind::Newtype(pair_of(Ty::user("Snd"), t.clone()))), Variant::new("S", VKind::Struct(vec![Field::new("f", pair_of(t, Ty::user("Snd")))]))])
+        }
+        "alias-pair-both-renamed" => {
+            items.push(snd);
+            items.push(pair(true));
+            Item::new("Referrer", IKind::Alias(pair_of(t, Ty::user("Snd"))))
+        }
         "field" => Item::strukt("Referrer", vec![Field::new("r", t)]),
         "vec" => Item::strukt("Referrer", vec![Field::new("r", Ty::Vec(Box::new(t)))]),
         "option" => Item::strukt("Referrer", vec![Field::new("r", Ty::Option(Box::new(t)))]),
